@@ -18,6 +18,12 @@ CHECKS = {
  "C02": ("S", "exploration", "deterministic simulation: seeded sequential histories; per-match monitor + lifetime ledger over the recorded history",
          "Every match of every generated history is checked for arithmetic, transaction fields, id freshness and the filled-id set, and a per-order ledger (traded <= supplied, adjusted by amends) is kept across the whole history and across rebuilds.",
          "As C01. Transaction-id uniqueness is per generator instance.", "DESIGN.md §8 C02"),
+ "C03": ("T", "exploration", "deterministic simulation: controlled scheduler over real threads (scheduling point before every atomic/map/queue op), seeded schedule strategies, conservation oracle over the recorded history",
+         "2-4 caller threads run under a one-at-a-time scheduler that decides every interleaving at the granularity the property states; at quiescence aggregates are compared with the listing and a per-order conservation equation is evaluated from all threads' responses and the step trace. Schedules are sampled (uniform, sticky, PCT, stall, op-boundary), failures replay from the recorded schedule list.",
+         "Sequential consistency; one DashMap/SegQueue call = one atomic step (their linearizability is trusted); a thread holding a map guard is never descheduled, so explored executions are a subset of real ones.", "DESIGN.md §4.1, §6, §8 C03"),
+ "C04": ("S", "exploration", "deterministic simulation: seeded sequential histories; priority-stamp monitor over every transaction of every match",
+         "Histories rich in partial fills, cancel-then-re-add, same-price amends and replenishment; each transaction is checked against the arrival stamps the property prescribes (keep on partial fill / amend, back on replenish / add).",
+         "Orders displaying 0 are exempt (the property does not place them); zero quantities are off in this check.", "DESIGN.md §8 C04"),
  "C05": ("S", "exploration", "deterministic simulation: independent executable rule as per-visit oracle inside simulated histories, plus a completely enumerated single-order workload",
          "The documented per-order rule, written independently from the property text, is evaluated at every maker visit of every match and on read-only probes of reached states; the small-value grid and the 64-bit corner pool are swept completely on every run.",
          "Thin fit for this technique (pure function): the simulator contributes reached states and replayability, not schedules. Rule = DESIGN.md A.3.", "DESIGN.md §8 C05, A.3"),
@@ -27,9 +33,42 @@ CHECKS = {
  "C07": ("S", "exploration", "deterministic simulation: before/after frame relations per update + twin run with read-only calls removed",
          "All five update kinds on present/absent ids at equal/other prices in states after fills and replenishments; the returned order, the frame (only that order changes) and the ledger are checked, and purity of reads is decided by running the same history with and without them.",
          "As C01.", "DESIGN.md §8 C07"),
+ "C08": ("T", "exploration", "deterministic simulation: controlled scheduler; concurrent phase followed by a draining match under a step budget; bare-queue programs with an exactly-once hand-out ledger",
+         "After any sampled interleaving a huge match from the driver must reach every listed order (nothing with displayed quantity remains, aggregates describe what is left, every order listed at quiescence is accounted for); a third of the runs exercise OrderQueue alone with concurrent push/pop/remove/find and check that every pushed order is handed out exactly once.",
+         "As C03.", "DESIGN.md §8 C08"),
+ "C09": ("W", "fault_enumeration", "deterministic simulation of the storage seam: complete enumeration of single-position faults (torn write, byte substitution/deletion/insertion/duplication, digit flip) and structural edits per generated package, sampled fault pairs",
+         "For each generated package text the whole single-fault space is enumerated at every offset and restored through both entry points; a restore must fail or yield exactly the snapshotted content, and every proper prefix must fail. The evidence counts rejections per stage (syntax/strict deserializer, version gate, checksum) so that a run which never reached the checksum is visible.",
+         "SHA-256 collisions not expected; an attacker recomputing the checksum is out of scope.", "DESIGN.md §7, §8 C09"),
  "C10": ("S", "exploration", "deterministic simulation: crash/restart through seven rebuild paths with lying-aggregate faults, history continues on the rebuilt level",
          "The live level is rebuilt at arbitrary history points through every external form, with the aggregate fields of the intermediate form corrupted in half of the rebuilds; content equality, derived aggregates and listing shape are checked and later operations run on the rebuilt object.",
          "As C01. Hash seed and shard count are varied per run, so listing order among equal timestamps is explored reproducibly.", "DESIGN.md §8 C10"),
+ "C11": ("S", "exploration", "deterministic simulation: crash/restart fork — original, restored and rebuilt-from-listing levels driven in lock-step by the same continuation",
+         "At a random quiescent point of a seeded history the level is snapshotted and restored; the continuation is applied to original, restored level and a level built from the snapshot's listing. Tier 1 (restored == rebuilt-from-listing) is a hard oracle; tier 2 (restored == original) is the property; a tier-2 difference explained by listing order != queue order is the listed finding, anything else is a violation.",
+         "Known finding C11/listing-order is open (format-level). Queue order of the original comes from the C04 stamp monitor.", "DESIGN.md §8 C11, §9"),
+ "C12": ("T", "exploration", "deterministic simulation: controlled scheduler with a stop-the-world observer before every shared-memory step",
+         "The scheduler stops the world before every instrumented step of every thread and reads the three aggregates; each must lie between 0 and the total supplied by the operations invoked so far. Transient wrapped values that live for nanoseconds on real hardware are therefore observed deterministically. Reader operations inside the programs are held to the same bound.",
+         "As C03. The bound has a margin of ~2^63 against false alarms.", "DESIGN.md §4.1, §8 C12"),
+ "C13": ("T", "exploration", "deterministic simulation: controlled scheduler; truthfulness decided over the recorded history (book intervals from map steps with outcomes), holder attribution classifies",
+         "Cancels / amends racing matches on the same order; each not-found is judged against the order's book interval reconstructed from the step trace, each reported success against later appearances of the order. The holder at the failing lookup distinguishes the listed in-flight-match window from any other cause.",
+         "Known finding C13/not-found-inflight-match is open (inherent to pop-compute-push). As C03.", "DESIGN.md §8 C13, §9"),
+ "C14": ("T", "exploration", "deterministic simulation: controlled scheduler on the id generator; set equality with a sequential reference run of the same code",
+         "2-6 threads x up to 50 calls on one generator under sampled schedules; the ids must be duplicate-free and equal to the first N ids of a fresh sequential generator with the same namespace.",
+         "As C03; uuid crate trusted.", "DESIGN.md §8 C14"),
+ "C15": ("S+T", "exploration", "deterministic simulation: sequential histories (checked after every op) and concurrent programs (checked at quiescence and after the drain) against event counts from the recorded history",
+         "The four figures are compared with counts derived from the responses of the recorded history, as deltas since construction of the level object, in both engines.",
+         "Positive quantities; value figure only when all orders are at the level's price.", "DESIGN.md §8 C15"),
+ "C16": ("W", "exploration", "deterministic simulation of the wire seam, fault-free channel: every value of simulated runs plus a boundary pool round-trips through the text codec",
+         "Values produced by simulated histories (orders after fills, multi-transaction results, statistics, levels, snapshots) and a boundary pool per type are printed and parsed back with the library and compared in harness-side form.",
+         "Thin fit: no schedule or fault in the property; claimed because the value population and replayability come from the simulator.", "DESIGN.md §8 C16"),
+ "C17": ("W", "exploration", "deterministic simulation of the wire seam, fault-free channel, JSON codec",
+         "As C16 with serde JSON; packages must still validate after the trip and carry derived aggregates.",
+         "Thin fit, as C16.", "DESIGN.md §8 C17"),
+ "C18": ("W", "fault_enumeration", "deterministic simulation of the wire seam, faulty channel: complete enumeration of char-level single faults per valid encoding into every parser, cross-type feeding, adversarial corpus; panics captured, loops bounded by the step budget",
+         "For each selected valid encoding every deletion, insertion, substitution (incl. multi-byte), digit flip, swap, duplication and truncation at every position is fed to the matching entry points, every valid encoding to all 31 entry points, and a fixed corpus to all of them; a panic or budget overrun is the violation.",
+         "Inputs are valid UTF-8 (&str entry points). Loops in un-instrumented parsers are only caught by the process watchdog.", "DESIGN.md §8 C18"),
+ "C19": ("S", "exploration", "deterministic simulation: seeded sequential operation sequences on the bare queue against a FIFO-with-removal list model",
+         "push / pop / find / remove / len / is_empty / to_vec and rebuilds (from_vec, From<Vec>, text, JSON) checked operation by operation against a list model, including re-push of ids after removal, with hasher seed and shard count varied.",
+         "Pushes of a currently queued id are skipped (precondition).", "DESIGN.md §8 C19"),
 }
 
 PENDING = {}  # filled below: everything not in CHECKS yet
@@ -64,7 +103,9 @@ def main():
             "add_only": True,
         },
         "engines": [
-            {"name": "S", "path": "sim/src/seq.rs", "serves_properties": [p for p in ALL if p in CHECKS and CHECKS[p][0] == "S"], "kind_free_text": "sequential histories with crash/restart, step budget, simulated clock, seeded hasher"},
+            {"name": "S", "path": "sim/src/seq.rs", "serves_properties": [p for p in ALL if p in CHECKS and "S" in CHECKS[p][0]], "kind_free_text": "sequential histories with crash/restart, step budget, simulated clock, seeded hasher"},
+            {"name": "T", "path": "sim/src/conc.rs, sim/src/sched.rs", "serves_properties": [p for p in ALL if p in CHECKS and "T" in CHECKS[p][0]], "kind_free_text": "concurrent programs on real threads under a one-at-a-time scheduler with stop-the-world observers; seeded strategies, recorded schedule = replay"},
+            {"name": "W", "path": "sim/src/wire.rs", "serves_properties": [p for p in ALL if p in CHECKS and CHECKS[p][0] == "W"], "kind_free_text": "simulated wire/storage between encode and decode: fault-free channel and enumerated byte/char/structural faults"},
         ],
         "checks": checks,
         "not_applicable": na,
